@@ -93,6 +93,8 @@ def run(chk):
                   kind=line.split(' ')[1], extras=line.split(' ')[2] + line.split(' ')[3] + line.split(' ')[4], arg=line.split('arg=')[1][:1])
         if i != m:
             chk.mismatch('argument convention vs Mpire.Args', {'line': line}, i, m)
+            if i.startswith('harness-cannot'):
+                continue
             exp = []
             f = dict(x.split('=', 1) for x in line.split(' ')[1:])
             if f['id'] == '1':
